@@ -270,6 +270,12 @@ def pending {α : Type} (written : List (Nat × α)) (i : Nat) : ReqOutcome α :
   | some l => .returned l.2
   | none => .timedOut
 
+/-- Several clients alive at once in one process, client `k` with the lines ITS child wrote: the request of
+client `k` is answered from its own child's lines only — whatever the other connections carry, even under the
+same request id. -/
+def pendingOf {α : Type} (clients : List (List (Nat × α))) (k i : Nat) : ReqOutcome α :=
+  pending (clients.getD k []) i
+
 /-! ## The behaviours of the property's quantifier (used by the correspondence run) -/
 
 inductive Behaviour where
